@@ -86,8 +86,8 @@ func (opts GeneratorOptions) setFields(
 		opts.genDuration(t, msg)
 		return true
 	case anyFullName:
-		opts.genAny(t, field, msg, depth)
-		return true
+		// false when no Any can be generated (no type URL configured): the caller then removes the blank message
+		return opts.genAny(t, field, msg, depth)
 	case fieldMaskFullName:
 		opts.genFieldMask(t, msg)
 		return true
@@ -130,7 +130,9 @@ func (opts GeneratorOptions) setFieldValue(t *rapid.T, msg protoreflect.Message,
 		for i := 0; i < n; i++ {
 			if kind == protoreflect.MessageKind || kind == protoreflect.GroupKind {
 				if !opts.setFields(t, field, list.AppendMutable().Message(), depth+1) {
-					list.Truncate(i)
+					// drop the element just appended (earlier failures have already shortened the list, so its
+					// index is not i)
+					list.Truncate(list.Len() - 1)
 				}
 			} else {
 				list.Append(opts.genScalarFieldValue(t, field, fmt.Sprintf("%s%d", name, i)))
